@@ -4,6 +4,7 @@ import (
 	"fmt"
 	"math/rand"
 	"os"
+	"os/exec"
 	"path/filepath"
 	"sort"
 	"strings"
@@ -252,9 +253,126 @@ func runC20(col *Collector, tier string, seed int64) {
 	for i := 0; i < nsel; i++ {
 		selectCase(col, rng)
 	}
+	// the same through a `watchers:` section (patterns relative to the start directory; bare names, no "/")
+	nvc := 30
+	if tier == "thorough" {
+		nvc = 400
+	}
+	for _, c := range selectCorpus {
+		selectViaConfigCase(col, treeSpec{paths: c.files}, c.inc, c.exc)
+	}
+	selectViaConfigCase(col, treeSpec{paths: []string{"a.log", "src/b.log", "src/c.go", "src/d/e.log", "x.go"}}, []string{"**/*", "*"}, []string{"*.log"})
+	selectViaConfigCase(col, treeSpec{paths: []string{"a", "d/a", "d/b", "b"}}, []string{"**/?", "?"}, []string{"a"})
+	for i := 0; i < nvc; i++ {
+		tree := genTree(rng)
+		var inc, exc []string
+		for k := 1 + rng.Intn(2); k > 0; k-- {
+			inc = append(inc, genPattern(rng))
+		}
+		for k := 1 + rng.Intn(2); k > 0; k-- {
+			exc = append(exc, genPattern(rng))
+		}
+		selectViaConfigCase(col, tree, inc, exc)
+	}
 	eventFilterCases(col)
 	if os.Getenv("VERIF_SKIP_INOTIFY") == "" {
 		watchRunCases(col, tier, rng)
 	}
 	_ = time.Second
+}
+
+// ---- path selection of a watcher declared in a configuration file, with patterns relative to the start directory ----
+
+func init() { childFns["watchsel"] = watchSelChild }
+
+// child process (its working directory is the tree's root): load the configuration, print what watcher "w" observes
+func watchSelChild(args []string) {
+	cl := verifhooks.NewConfigLoader(verifhooks.NewConfig())
+	cfg, err := cl.Load(args[0])
+	if err != nil {
+		fmt.Println("ERROR " + err.Error())
+		return
+	}
+	w := cfg.Watchers["w"]
+	if w == nil {
+		fmt.Println("ERROR no watcher")
+		return
+	}
+	for _, p := range w.VerifPaths() {
+		fmt.Println("PATH " + p)
+	}
+	fmt.Println("END")
+}
+
+func selectViaConfigCase(col *Collector, tree treeSpec, inc, exc []string) {
+	root := newScratchDir("c20c")
+	defer os.RemoveAll(root)
+	for _, p := range tree.paths {
+		os.MkdirAll(filepath.Join(root, filepath.Dir(p)), 0755)
+		os.WriteFile(filepath.Join(root, p), []byte("x"), 0644)
+	}
+	q := func(ps []string) string {
+		var out []string
+		for _, p := range ps {
+			out = append(out, fmt.Sprintf("%q", p))
+		}
+		return "[" + strings.Join(out, ", ") + "]"
+	}
+	// the configuration lives outside the tree so that it is not itself matched
+	cfgDir := newScratchDir("c20cc")
+	defer os.RemoveAll(cfgDir)
+	cfgPath := filepath.Join(cfgDir, "w.yaml")
+	os.WriteFile(cfgPath, []byte(fmt.Sprintf("tasks:\n  t:\n    command: [\"true\"]\nwatchers:\n  w:\n    task: t\n    watch: %s\n    exclude: %s\n", q(inc), q(exc))), 0644)
+	cs := Case{Tags: []string{"select", "select-via-config"}, NonTrivial: true}
+	cs.Line = fmt.Sprintf("select inc=%s exc=%s tree=%s", strings.Join(inc, ","), strings.Join(append([]string{"-"}, exc...), ","), strings.Join(tree.all(), ","))
+	cs.Replay = "watcher declared in a configuration file, patterns relative to the start directory: " + cs.Line
+	self, _ := os.Executable()
+	cmd := exec.Command(self, "-child", "watchsel", cfgPath)
+	cmd.Dir = root
+	cmd.Env = append(os.Environ(), "HOME="+cfgDir)
+	out, err := cmd.Output()
+	var got []string
+	ended := false
+	for _, l := range strings.Split(string(out), "\n") {
+		switch {
+		case strings.HasPrefix(l, "PATH "):
+			got = append(got, filepath.Clean(strings.TrimPrefix(l, "PATH ")))
+		case l == "END":
+			ended = true
+		case strings.HasPrefix(l, "ERROR "):
+			cs.Fail, cs.Sig = "watcher from configuration: "+l, "c20-newwatcher"
+		}
+	}
+	if !ended && cs.Fail == "" {
+		cs.Fail, cs.Sig = fmt.Sprintf("child did not finish: %v", err), "c20-panic"
+	}
+	sort.Strings(got)
+	var uniq []string
+	for i, g := range got {
+		if i == 0 || g != got[i-1] {
+			uniq = append(uniq, g)
+		}
+	}
+	var want []string
+	for _, p := range tree.all() {
+		in := false
+		for _, i := range inc {
+			if globMatch(i, p) {
+				in = true
+			}
+		}
+		for _, e := range exc {
+			if globMatch(e, p) {
+				in = false
+			}
+		}
+		if in {
+			want = append(want, p)
+		}
+	}
+	cs.Impl = strings.Join(uniq, ",")
+	if cs.Fail == "" && strings.Join(uniq, ",") != strings.Join(want, ",") {
+		cs.Fail, cs.Sig = fmt.Sprintf("watcher observes %v, the include/exclude patterns select %v", uniq, want), "c20-selection"
+	}
+	col.Add(cs)
 }
